@@ -81,6 +81,70 @@ theorem readable_after_merge (B Sp Sc : Snap K) (Ap Ac : List (Action K)) (pp pc
   obtain ⟨S', h1, _, _⟩ := merge_exact_partial B Sp Sc Ap Ac pp pc d hpp hpc hSp hSc hd guard
   rw [h1]; rfl
 
+/-! ### merge racing with other commits -/
+
+private theorem run_append (cfg : Cfg K V) (s : State K V) (a b : List (Op V)) :
+    run cfg s (a ++ b) = run cfg (run cfg s a) b := by simp [run, List.foldl_append]
+
+/-- **merge_keeps_concurrent.**  `mergeLoop` is `Branch.mergeInto` inside the commit retry loop
+    of `Branch.commit`, with `others[i]` = what other clients commit (on any branch, any
+    operations) between the i-th attempt's tip lookup and its branch-pointer update.  If the
+    merge is acknowledged, then for some attempt `k`: `sk` is the state after everything the
+    others did before that attempt, `sstar` the state after what they did during it; the
+    parent's tip is the same (`seen`) in both, the merge object was built by `buildMergeObject`
+    against exactly that tip (`mergeActions sk.commits ctip seen`), and the result is `sstar`
+    with that object committed on top of `seen`.  Hence every commit of every other client —
+    before or during the merge, on the parent, the child or elsewhere — is still there, the
+    parent's previous tip is the merge commit's parent, and `merge_exact_partial` applies with
+    the LATEST parent tip: nothing committed after the merge started is lost or overwritten. -/
+theorem merge_keeps_concurrent (cfg : Cfg K V) (fuel : Nat) (s : State K V) (ctip parent : Nat)
+    (others : List (List (Op V))) (sf : State K V)
+    (h : mergeLoop cfg fuel s ctip parent others = .ok sf) :
+    ∃ (k : Nat) (seen : Nat) (acts : List (Action K)),
+      let sk := run cfg s (others.take k).flatten
+      let sstar := run cfg sk (others.getD k [])
+      sk.tip parent = some seen ∧ sstar.tip parent = some seen ∧
+      mergeActions sk.commits ctip seen = .ok acts ∧ sf = sstar.commit parent seen acts ∧
+      sf.commits = sstar.commits ++ [{ parent := seen, acts := acts }] ∧ sf.files = sstar.files := by
+  induction fuel generalizing s others with
+  | zero => simp [mergeLoop] at h
+  | succ n ih =>
+    unfold mergeLoop at h
+    cases ht : s.tip parent with
+    | none => simp [ht] at h
+    | some seen =>
+      simp only [ht] at h
+      cases hm : mergeActions s.commits ctip seen with
+      | error e => simp [hm] at h
+      | ok acts =>
+        simp only [hm] at h
+        split at h
+        · rename_i hc
+          simp only [Except.ok.injEq] at h
+          refine ⟨0, seen, acts, ?_⟩
+          simp only [List.take_zero, List.flatten_nil, run, List.foldl_nil]
+          have e0 : others.getD 0 [] = others.headD [] := by cases others <;> rfl
+          rw [e0]
+          refine ⟨ht, by simpa [run] using hc, hm, h.symm, by rw [← h]; rfl, by rw [← h]; rfl⟩
+        · obtain ⟨k, seen', acts', h1, h2, h3, h4, h5, h6⟩ := ih (run cfg s (others.headD [])) others.tail h
+          refine ⟨k + 1, seen', acts', ?_⟩
+          cases others with
+          | nil =>
+            simp only [List.headD_nil, List.tail_nil, List.take_nil, List.flatten_nil, List.getD_nil] at *
+            simp only [run, List.foldl_nil] at *
+            exact ⟨h1, h2, h3, h4, h5, h6⟩
+          | cons o os =>
+            simp only [List.headD_cons, List.tail_cons, List.take_succ_cons, List.flatten_cons,
+              List.getD_cons_succ] at *
+            rw [run_append]
+            exact ⟨h1, h2, h3, h4, h5, h6⟩
+
+/-- without interference the loop is the plain merge -/
+example (cfg : Cfg K V) (s : State K V) (ctip ptip child parent : Nat) (hc : s.tip child = some ctip)
+    (hp : s.tip parent = some ptip) :
+    mergeLoop cfg 10 s ctip parent [] = merge s child parent := by
+  simp only [mergeLoop, hp, merge, hc, run, List.headD_nil, List.foldl_nil, beq_self_eq_true, if_true]
+
 /-! ### revert -/
 
 /-- **revert_exact.**  Let `B` be the snapshot of commit `c`'s parent, `A` the actions of `c`
